@@ -138,9 +138,10 @@ def check(ctx):
     calls = [c for c in own_nodes(step.node) if isinstance(c, ast.Call) and resolved_callee(ctx, c, step) is srt0]
     bind = {}
     if len(calls) == 1:
-        for p_, a_ in zip(srt0.params, calls[0].args):
+        ec = res.effective_call(calls[0], step.module, step)      # arguments pre-bound by functools.partial count
+        for p_, a_ in zip(srt0.params, ec.args):
             bind[p_] = pseudo(a_)
-        for k in calls[0].keywords:
+        for k in ec.keywords:
             bind[k.arg] = pseudo(k.value)
     rev_p = [p_ for p_, a_ in bind.items() if a_ == 'reverse']
     bs_p = [p_ for p_, a_ in bind.items() if a_ == 'batch_size']
